@@ -6,7 +6,7 @@
    C18_base64_nonempty), which gives the hypothesis-free C18_roundtrip_concrete. *)
 From Coq Require Import Permutation.
 From Oras Require Import Base.Prelude Base.FlatFS Generated.GC18
-  Model.Base64 Model.CredFile Model.CredSave Model.CredConc
+  Model.Utf8 Model.Base64 Model.CredFile Model.CredSave Model.CredConc
   Proofs.Base64 Proofs.CredFile Proofs.CredSave Proofs.CredConc.
 
 (* Put then Get -- after any further history that does not Put/Delete the same
@@ -16,7 +16,7 @@ Theorem C18_roundtrip :
   forall (enc : str -> str) (dec : str -> option str) (ok : str -> Prop),
     (forall s, ok s -> dec (enc s) = Some s) -> (forall s, enc s = [] -> s = []) ->
     forall st a c h,
-      contains colon (c_user c) = false ->
+      put_accepts a c = true ->
       ok (c_user c ++ colon :: c_pass c) ->
       (forall o, In o h -> ~ writes a o) ->
       snd (step enc dec st (Put a c)) = ROk /\
@@ -38,7 +38,7 @@ Print Assumptions C18_base64_nonempty.
 (* the round trip with the real codec: no hypothesis left but "bytes are bytes" *)
 Theorem C18_roundtrip_concrete :
   forall st a c h,
-    contains colon (c_user c) = false ->
+    put_accepts a c = true ->
     Forall (fun x => x < 256) (c_user c ++ colon :: c_pass c) ->
     (forall o, In o h -> ~ writes a o) ->
     snd (step b64_encode b64_decode st (Put a c)) = ROk /\
@@ -61,8 +61,18 @@ Print Assumptions C18_get_all_orders.
 Theorem C18_colon_refused :
   forall (enc : str -> str) (dec : str -> option str) st a c,
     contains colon (c_user c) = true -> step enc dec st (Put a c) = (st, RErrBadCred).
-Proof. exact put_refused. Qed.
+Proof. exact colon_refused. Qed.
 Print Assumptions C18_colon_refused.
+
+(* exactly the credentials FileStore.Put accepts are stored (C18_roundtrip); every
+   other one -- colon in the username, or a server address / refresh token /
+   access token that is not valid UTF-8 and could only be written lossily as
+   JSON -- is refused with ErrBadCredentialFormat and nothing changes *)
+Theorem C18_put_refused :
+  forall (enc : str -> str) (dec : str -> option str) st a c,
+    put_accepts a c = false -> step enc dec st (Put a c) = (st, RErrBadCred).
+Proof. exact put_refused. Qed.
+Print Assumptions C18_put_refused.
 
 (* Delete removes exactly the entry keyed by the address, in memory and in the file *)
 Theorem C18_delete_local :
@@ -88,13 +98,18 @@ Theorem C18_delete_then_get :
 Proof. exact delete_then_get. Qed.
 Print Assumptions C18_delete_then_get.
 
-(* every pre-existing document the store opens, every history: all other
-   top-level keys, a configured credsStore and every auths entry that no
+(* every pre-existing document NewFileStore opens ([open_file]: the document as it
+   is on disk, its keys decoded the way encoding/json does), every history: all
+   other top-level keys, a configured credsStore and every auths entry that no
    operation addressed are in the file exactly as they were (values are opaque:
-   unknown fields included) *)
-Theorem C18_preserves_rest :
+   unknown fields included).  PARTIAL: the top-level keys, the auths keys and
+   credsStore of the document must be valid UTF-8 once unescaped ([file_utf8]);
+   C18_preserves_rest_refuted shows the hypothesis is needed (known finding
+   lone-surrogate: encoding/json reads "k\ud800" as "k" ++ U+FFFD and the first
+   save renames the key) *)
+Theorem C18_preserves_rest_partial :
   forall (enc : str -> str) (dec : str -> option str) f st0 h,
-    open_store f = Some st0 ->
+    file_utf8 f -> open_file f = Some st0 ->
     let stf := run enc dec st0 h in
     (forall k, k <> configFieldAuths -> k <> configFieldCredentialsStore ->
                file_top k (st_file stf) = file_top k f) /\
@@ -102,8 +117,29 @@ Theorem C18_preserves_rest :
                file_top configFieldCredentialsStore (st_file stf) = Some (TCs s)) /\
     (forall a, (forall o, In o h -> ~ writes a o) ->
                file_entry a (st_file stf) = file_entry a f).
-Proof. exact preserves_rest. Qed.
-Print Assumptions C18_preserves_rest.
+Proof. exact preserves_rest_partial. Qed.
+Print Assumptions C18_preserves_rest_partial.
+
+Theorem C18_preserves_rest_refuted :
+  forall (enc : str -> str) (dec : str -> option str),
+    exists f st0 h k,
+      open_file f = Some st0 /\
+      k <> configFieldAuths /\ k <> configFieldCredentialsStore /\
+      file_top k f <> None /\
+      file_top k (st_file (run enc dec st0 h)) = None.
+Proof. exact preserves_rest_refuted. Qed.
+Print Assumptions C18_preserves_rest_refuted.
+
+(* the hypothesis of the partial theorem is satisfiable and then NewFileStore is
+   [open_store] on the same document *)
+Theorem C18_open_file_utf8 :
+  forall f, file_utf8 f -> open_file f = open_store f.
+Proof. exact open_file_store. Qed.
+Print Assumptions C18_open_file_utf8.
+
+Example C18_example_file_utf8 :
+  file_utf8 (Some [(b "auths", TAuths [(b "https://reg.io/", Old (b "{}") VErr)]); (b "credsStore", TCs (b "desktop")); (b "x", TRaw (b "1") KOther)]).
+Proof. repeat constructor. Qed.
 
 (* the file left by any history loads again and yields a store with the same
    entries (the secrets really are in the file) *)
